@@ -171,7 +171,22 @@ def make_cases(rng, tier, budget, n=None, wide=False):
         w = wide_options(r, i) if wide else None
         _, meta0 = gen.gen_model(r, min_events=1, wide=w)
         ab = meta0["abstract"]
+        dup = None
+        if i % 5 == 4 and ab["procs"]:
+            # the SAME process entered twice (same origin, destination and rate; the same or another magnitude): a set of
+            # processes is a multiset - both count on every route (seeded change C12-f1: the legacy route dropped the second)
+            dr = random.Random(r.getrandbits(64))
+            src = dr.choice(ab["procs"])
+            twin = copy.deepcopy(src)
+            dup = "same-magnitude"
+            if dr.random() < 0.5:
+                for tr in twin["transitions"]:
+                    tr["mag"] = E.num(dr.randint(1, 3))
+                dup = "own-magnitude"
+            ab["procs"].insert(dr.randint(0, len(ab["procs"])), twin)
         cases.append(case_from_abstract(r, ab, meta0, wide))
+        if dup:
+            cases[-1]["duplicate"] = dup
         if wide:
             cases[-1]["wide"] = w
     # the wide cases are drawn AFTER the classic ones (whose random stream is what it was) and spread over the run
@@ -361,6 +376,8 @@ def run_case(case):
     pts = [{k: Fraction(val) for k, val in p.items()} for p in case["points"]]
     sched = case.get("schedule") or ([["build", v] for v in names])
     env0 = pts[0]
+    if case.get("duplicate"):
+        tags.append("duplicate-process:" + case["duplicate"])
     if case.get("wide") is not None:
         ab_ = case["abstract"]
         tags += wide_tags(case["A"], {"states": ab_["states"], "params": ab_["params"], "derived": [d_[0] for d_ in ab_["derived"]], "procs": ab_["procs"]},
